@@ -178,6 +178,7 @@ class C02(core.Check):
         "operations are applied where they are defined (positive sizes, equal widths for stacking, overlay inside the bottom canvas, "
         "join widths >= canvas widths); outside, only model-vs-implementation agreement is checked",
         "attribute keys are hashable constants (modelled as integers); attribute maps are compared as dicts",
+        "object identity of leaf canvases (cv[5] is other_cv[5]) is an integer id; equal ids denote the same canvas (premise ids_ok of the delta theorem)",
         "shortcuts and children lists, widget_info contents and the CanvasCache are not modelled",
     ]
 
@@ -1210,9 +1211,11 @@ C02.level_text = (
     "shards_join = row-wise concatenation, attribute map = cell map) each with WF preservation and size; a double-width "
     "character cut by a window becomes a space and a window of a window is the window; content() of a WF canvas has "
     "rows() rows of cols() cells and no half character at a row edge.  The key lemma content_correct ties the Python "
-    "shard_body/shard_body_row/shard_body_tail iterator algorithm to a 'remaining rows' machine.  NOT PROVED (stated as "
-    "delta_apply_full): the content_delta clause; it is decided by the exact model-vs-implementation correspondence on "
-    "content_delta items and by the oracle (delta applied to the old rows must give the new rows) only.  'Operands are left "
+    "shard_body/shard_body_row/shard_body_tail iterator algorithm to a 'remaining rows' machine.  The delta clause is "
+    "proved as well (delta_applied_to_old_rows_gives_new_rows): for any two well-formed canvases of equal size, "
+    "content_delta (shards_delta, shard_cviews_delta, the shard machinery over cviews flagged unchanged, merged skips, the "
+    "repeated-[int]-row shortcut) does not raise and, applied to the old rows, reproduces the new rows exactly; premise: "
+    "integer canvas ids model object identity (equal id => same leaf canvas).  Nothing is left _partial.  'Operands are left "
     "unchanged' is a theorem about the pure model only in the sense that bound canvases stay related to the same grid value; "
     "against Python object aliasing it is checked by the oracle (every bound canvas and leaf re-read at the end of each case).  "
     "The model is hand-written (no translated code): its agreement with canvas.py is re-established on every run by the exact "
